@@ -821,6 +821,11 @@ class Executor:
             if is_lit(x) and is_lit(y):
                 f = {"BitOr": int.__or__, "BitAnd": int.__and__, "BitXor": int.__xor__}[op]
                 return VInt(I(f(x.as_long(), y.as_long())), ty)
+            if op == "BitAnd":
+                # x & (2^k - 1)  ==  x mod 2^k   (keeps the encoding in integer arithmetic)
+                for u, v in ((x, y), (y, x)):
+                    if z3.is_int_value(v) and v.as_long() >= 0 and (v.as_long() & (v.as_long() + 1)) == 0:
+                        return VInt(simp(u % (v.as_long() + 1)), ty)
             full = self.bv_op(op, x, y, ty)
             if op == "BitOr" and (a.lowzero or b.lowzero):
                 # (p << k) | q  ==  (p << k) + q   whenever q < 2^k   (sound case split)
